@@ -73,7 +73,9 @@ def roundtrip_grammar(spec_text):
     g, cs = parse(spec_text, use_stdlib=False, use_cache=False)
     printed = repr(g) + "\n"
     for c in cs:
-        printed += "where " + c.format_as_spec() + "\n"
+        line = c.format_as_spec()
+        # soft constraints print their own keyword (`minimizing ...` / `maximizing ...`); hard constraints are `where` lines
+        printed += (line if line.startswith(("minimizing ", "maximizing ")) else "where " + line) + "\n"
     g2, cs2 = parse(printed, use_stdlib=False, use_cache=False)
     return g, cs, printed, g2, cs2
 
@@ -240,6 +242,18 @@ def replay(spec_text):
     if len(cs) != len(cs2):
         print("VIOLATION reproduced: constraint count changed")
         return 1
+    if g.generators:
+        for sd in range(6):
+            random.seed(sd)
+            try:
+                t2 = g2.fuzz()
+                back = g.parse(t2.to_string())
+            except Exception as e:
+                print("VIOLATION reproduced: fuzzing the re-read grammar raises", type(e).__name__)
+                return 1
+            if back is None:
+                print("VIOLATION reproduced: the re-read grammar generates", repr(t2.to_string()), "which is not a word of the original")
+                return 1
     for sd in range(40):
         random.seed(sd)
         t = g.fuzz()
